@@ -329,8 +329,13 @@ pub fn battery(td: &mut TDigestMut, known: &Known, grid: usize, qseed: u64, ctx:
     sp.sort_by(|a, b| a.partial_cmp(b).unwrap());
     sp.dedup();
     sps.push(sp);
+    // infinite split points are sorted, unique and not NaN: valid (rank(+inf) = 1, rank(-inf) = 0)
+    sps.push(vec![f64::INFINITY]);
+    sps.push(vec![f64::NEG_INFINITY]);
+    sps.push(vec![f64::NEG_INFINITY, f64::INFINITY]);
+    sps.push(vec![f64::NEG_INFINITY, (min + max) / 2.0, f64::INFINITY]);
     for sp in &sps {
-        if sp.iter().any(|x| !x.is_finite()) {
+        if sp.iter().any(|x| x.is_nan()) || sp.windows(2).any(|w| !(w[0] < w[1])) {
             continue;
         }
         let cdf = td.cdf(sp).ok_or_else(|| Fail { clause: "C10.cdf_none".into(), detail: format!("{ctx}: cdf is None") })?;
